@@ -78,8 +78,9 @@ def gen_tasks(ctx: common.Ctx, n_std: int | None, n_corpus: int, n_gen: int, fli
     for v in range(n_gen):
         rng = common.rng_for("C11", "gen", v)
         files = c11_gen.package(v, rng)
-        flags = [[], ["--strict"], ["--python-version", "3.13"], ["--disallow-any-generics", "--local-partial-types"]][v % 4]
-        yield {"fn": TASK, "args": {"files": files, "args": [*flags, "c11main.py", "c11pep695.py", "c11pkg", "c11stub.pyi"],
+        flags = [[], ["--strict"], ["--python-version", "3.13"], ["--disallow-any-generics", "--local-partial-types"],
+                 ["--debug-cache"], ["--no-strict-optional", "--allow-redefinition"]][v % 6]
+        yield {"fn": TASK, "args": {"files": files, "args": [*flags, "c11main.py", "c11pep695.py", "c11pkg", "c11stub.pyi", "c11bounds.py", "c11deep"],
                                     "cold": False, "ff": v % 2 == 0, "flips": flips, "scope": "user", "base_flags": flags},
                "_kind": "generated", "_name": f"generated:{v}"}
     # (E) histgen projects (3-7 modules, packages, stubs, cycles): first and last version of each history
@@ -91,6 +92,10 @@ def gen_tasks(ctx: common.Ctx, n_std: int | None, n_corpus: int, n_gen: int, fli
             yield {"fn": TASK, "args": {"files": h["versions"][vi], "args": ["main.py"], "cold": False, "ff": (k + vi) % 2 == 0,
                                         "flips": flips if k % 3 == 0 else 0, "scope": "user", "base_flags": []},
                    "_kind": "histgen", "_name": f"histgen:{k}:v{vi}"}
+    for ff in (True, False):
+        yield {"fn": TASK, "args": {"files": dict(c11_gen.SURROGATES), "args": ["c11sur.py"], "cold": False, "ff": ff, "flips": 0,
+                                    "scope": "user", "base_flags": []},
+               "_kind": "generated", "_name": f"generated:lone-surrogates:{'binary' if ff else 'json'}"}
     # (B) stdlib modules against a warm typeshed-only base cache (their dependencies come lazily from the cache)
     mods = stdlib_modules()
     rng = common.rng_for("C11", "stdlib")
@@ -215,7 +220,7 @@ def run(ctx: common.Ctx) -> None:
     ctx.assumptions += [
         "the contract runs in a forked child of the process that runs the real build, at the moment State.write_cache is called "
         "(fully analysed tree, live module map); the reload is fixed up against the live map with the reload installed as modules[id]",
-        "librt is the installed wheel (not rebuilt from mypyc/lib-rt); CPython, orjson/json are trusted base",
+        "CPython and orjson/json are trusted base",
         "projection (attributes not compared live-vs-reload, with reasons): " + "; ".join(f"{k}: {v}" for k, v in sorted(c11_walk.PROJECTION.items())),
         "memo slots excluded in every pairing: " + "; ".join(f"{k}: {v}" for k, v in sorted(c11_walk.CACHES.items())),
         "normalisations: CallableType.definition Decorator ~ its FuncDef (all readers look through); Var.info/FuncDef.info absent in the "
@@ -326,12 +331,13 @@ def run(ctx: common.Ctx) -> None:
     ctx.extra["modules_under_contract"] = mods_seen
     ctx.extra["type_classes_seen"] = sorted(type_cells)
     ctx.extra["type_classes_never_seen"] = sorted(set(SERIALIZABLE_TYPES) - type_cells)
+    # floors: ~30% of what the unchanged tree yields (quick: ~1600 modules / ~170k evaluations; thorough: ~10k / ~1.4M)
     if quick:
-        ctx.floor_nontrivial = int(150 * min(1.0, scale))
-        ctx.floor_evaluations = int(2500 * min(1.0, scale))
+        ctx.floor_nontrivial = int(500 * min(1.0, scale))
+        ctx.floor_evaluations = int(50000 * min(1.0, scale))
     else:
-        ctx.floor_nontrivial = int(1500 * min(1.0, scale))
-        ctx.floor_evaluations = int(25000 * min(1.0, scale))
+        ctx.floor_nontrivial = int(3000 * min(1.0, scale))
+        ctx.floor_evaluations = int(400000 * min(1.0, scale))
 
 
 def build_repo_librt(wd: str) -> str | None:
